@@ -22,6 +22,22 @@ P = {'props': ['C18']}
 LIST_FIELDS = {'qmat'}        # python lists: + and += concatenate; on the array fields they add elementwise
 
 
+def _carries(d, var, field):
+    """does the expression use the variable (or self.<field>) as a value -- not merely its length / shape?"""
+    skip = set()
+    for x in ast.walk(d):
+        if isinstance(x, ast.Call) and call_name(x) == 'len':
+            skip |= {id(y) for y in ast.walk(x)}
+        if isinstance(x, ast.Attribute) and x.attr in ('shape', 'size', 'ndim', 'dtype'):
+            skip |= {id(y) for y in ast.walk(x)}
+    for x in ast.walk(d):
+        if id(x) in skip:
+            continue
+        if (isinstance(x, ast.Name) and x.id == var) or is_self_attr(x, field):
+            return True
+    return False
+
+
 def _listlike(e):
     return isinstance(e, (ast.List, ast.ListComp)) or (isinstance(e, ast.Call) and call_name(e) == 'list')
 
@@ -34,10 +50,15 @@ def run(repo):
     res.floor = 12
     fi = repo.func('gcp.GCProg.to_socp')
     res.functions.add(fi.fq)
+    from .common import expand_locals
     rets = [n for n in walk_no_nested(fi.node) if isinstance(n, ast.Return) and n.value is not None]
-    if len(rets) != 1 or not isinstance(rets[0].value, ast.Call):
-        raise AnalysisError('to_socp: expected a single `return <Program>(...)`')
+    if len(rets) != 1:
+        raise AnalysisError('to_socp: expected a single return')
     call = rets[0].value
+    if isinstance(call, ast.Name):
+        call = expand_locals(fi.node, call, depth=1)       # prog = Program(..); return prog
+    if not isinstance(call, ast.Call):
+        raise AnalysisError('to_socp: expected `return <Program>(...)`')
     k = repo.resolve_name('gcp', ntext(call.func))
     if k is None or getattr(k, 'fq', None) not in ('gcp.GCProg', 'socp.SOCProg'):
         raise AnalysisError('to_socp returns %s, not a program constructor' % ntext(call.func))
@@ -78,10 +99,28 @@ def run(repo):
             elif p in LIST_FIELDS and isinstance(d, ast.BinOp) and isinstance(d.op, ast.Add) and \
                     isinstance(d.left, ast.Name) and d.left.id == v.id and _listlike(d.right):
                 pass                # list concatenation  v = v + [...]
+            elif isinstance(d, (ast.List, ast.Tuple)) and len(d.elts) == 1 and isinstance(d.elts[0], ast.Starred) \
+                    and is_self_attr(d.elts[0].value, p):
+                base += 1           # [*self.p]: a fresh list with the same elements
+            elif p in LIST_FIELDS and ((isinstance(d, ast.List) and not d.elts) or
+                                       (isinstance(d, ast.Call) and call_name(d) == 'list' and not d.args)) and \
+                    any(is_self_attr(a.value, p) for a in augs.get(v.id, [])):
+                base += 1           # v = []; v += self.p
+            elif p in LIST_FIELDS and isinstance(d, ast.BinOp) and isinstance(d.op, ast.Add) and \
+                    isinstance(d.left, ast.Name) and d.left.id == v.id and isinstance(d.right, ast.Name) and \
+                    all(_listlike(x) for x in defs.get(d.right.id, [None])):
+                pass                # v = v + cones, cones a list built here
             elif is_self_attr(d):
                 probs.append('initialised from self.%s, not self.%s' % (d.attr, p))
+            elif any(is_self_attr(x) and x.attr in PREFIX_FIELDS and x.attr != p for x in ast.walk(d)) and \
+                    not any(is_self_attr(x, p) for x in ast.walk(d)):
+                probs.append('defined from another field (`%s`)' % ntext(d)[:50])
+            elif not _carries(d, v.id, p):
+                probs.append('defined by `%s`, which does not contain the previous content at all (the exact '
+                             'program\'s entries are rebuilt, not carried over)' % ntext(d)[:50])
             else:
-                probs.append('defined by `%s`, which is not a prefix-preserving extension' % ntext(d)[:50])
+                raise AnalysisError('to_socp: the %s of the result is defined by `%s`, a form the rule does not '
+                                    'interpret' % (p, ntext(d)[:50]))
         if isinstance(v, ast.Name):
             for a in augs.get(v.id, []):
                 if not isinstance(a.op, ast.Add) or p not in LIST_FIELDS:
@@ -96,7 +135,8 @@ def run(repo):
                              '%s must be carried over unchanged as a prefix' % (p, pr, p),
                              repo.where(fi), P))
     xm = env.get('xmat')
-    ok = isinstance(xm, (ast.List, ast.Tuple)) and not xm.elts
+    ok = (isinstance(xm, (ast.List, ast.Tuple)) and not xm.elts) or \
+        (isinstance(xm, ast.Call) and call_name(xm) in ('list', 'tuple') and not xm.args and not xm.keywords)
     res.inst({'field': 'xmat', 'value': ntext(xm) if xm is not None else None, 'ok': ok}, ok)
     if not ok:
         res.fail(Finding(RULE, fi.fq, 'field xmat', 'to_socp must return a program without '
@@ -126,7 +166,7 @@ def run(repo):
         why = ''
         if ok:
             c = calls[0]
-            recv = c.func.value
+            recv = expand_locals(f2.node, c.func.value, depth=1)      # exact = self.do_math(..); exact.to_socp(..)
             args = [ntext(a) for a in c.args] + ['%s=%s' % (k.arg, ntext(k.value)) for k in c.keywords]
             fwd = (args[:2] == ['degree', 'cuts']) or set(args) == {'degree=degree', 'cuts=cuts'}
             own = isinstance(recv, ast.Call) and ntext(recv.func) == 'self.do_math'
